@@ -11,11 +11,13 @@ def plan(tier):
             continue
         conds.append(Cond("vf.h.h_instr2", "h_other", case=case, timeout=600, label=f"H09-other[v0 {kinds[case // 4]}, v1 {kinds[case % 4]}]", weight=8))
     conds.append(Cond("vf.h.h_instr2", "h_prec", case=0, timeout=900, label="H09-precedence", weight=40))
+    for k in (1, 2, 3):
+        conds.append(Cond("vf.h.h_instr2", "h_prec", case=k, timeout=900, label=f"H09-precedence[generator {k} re-injected]", weight=40))
     return {
         "conds": conds,
         "min_classes": 150,
-        "explanation": 'C09: an applied instruction either puts the vehicle into the instructed activity with its side effects (counters, request record, applied_instructions) touching nothing but the vehicle and its old/new targets, or leaves the whole simulation state structurally unchanged. H09-other: two instructions in one call, one rejected: the joint result equals the accepted one alone. H09-precedence: real StepSimulation.update with three stub generators emitting symbolic instructions and the driver of the vehicle: exactly one instruction is logged and applied per vehicle -- the one from the driver if it spoke, else the one from the last generator that spoke.',
-        "entry_points": ['step_simulation_ops.apply_instructions', 'StepSimulation.update', 'instruction_generator_ops.generate_instructions', 'DictOps.add_to_stack_dict/pop_from_stack_dict', 'AutonomousAvailable.generate_instruction'],
+        "explanation": 'C09: an applied instruction either puts the vehicle into the instructed activity with its side effects (counters, request record, applied_instructions) touching nothing but the vehicle and its old/new targets, or leaves the whole simulation state structurally unchanged. H09-other: two instructions in one call, one rejected: the joint result equals the accepted one alone. H09-precedence: real StepSimulation.update with three stub generators emitting symbolic instructions and the driver of the vehicle: exactly one instruction is logged and applied per vehicle -- the one from the driver if it spoke, else the one from the last generator that spoke, also after one of the generators has been handed back unchanged through StepSimulation.update_instruction_generator (priority order must not move).',
+        "entry_points": ['step_simulation_ops.apply_instructions', 'StepSimulation.update', 'StepSimulation.update_instruction_generator', 'instruction_generator_ops.generate_instructions', 'DictOps.add_to_stack_dict/pop_from_stack_dict', 'AutonomousAvailable.generate_instruction'],
         "bounds": C.ARENA_BOUNDS + C.T_BOUNDS,
         "outside": C.T_OUTSIDE,
         "stubs": C.STUBS_COMMON + C.STUBS_UPD,
